@@ -17,6 +17,7 @@
   `Held s h`: `h` is the handle of some pool entry of `s` (live or consumed) or of some memo entry.
 -/
 import ParsleyVerif.Proofs.SliceRun
+import ParsleyVerif.Generated.FactsAst
 import ParsleyVerif.Generated.Facts
 namespace PV.Slice
 
@@ -179,5 +180,23 @@ example :
        (false, [.listOpen, .ntOpen 9 0 2, .term 1 0 0 1, .term 2 0 1 2, .close, .ntOpen 9 0 3, .term 1 0 0 1, .term 3 0 1 3, .close, .empty 0, .close]),
        (true, [.listOpen, .ntOpen 9 0 2, .term 1 0 0 1, .term 2 0 1 2, .close, .ntOpen 9 0 3, .term 1 0 0 1, .term 3 0 1 3, .close, .empty 0, .close])] := by
   decide
+
+/-- the source text of every list/node primitive the machine transcribes — AppendNode, NodeList.Append,
+    SetReaderPos on each node kind and on lists, Memoize with its capacity clip, the copying result
+    handler, the sequence buffer write, Any, Optional — is what it was when the machine was written
+    (regenerated from the repository on every run into Generated/FactsAst.lean) -/
+theorem c07_source_facts_ast :
+    FactsAst.appendNodeBody = "{ifn1==nil{returnn2}ifn2==nil{returnn1}switchn:=n1.(type){caseNodeList:n.Append(n2)returnndefault:nl:=NodeList([]parsley.Node{n1})nl.Append(n2)returnnl}}" ∧
+    FactsAst.setReaderPosBody = "{switchn:=node.(type){caseReaderPosSetter:n.SetReaderPos(f)caseEmptyNode:returnEmptyNode(f(parsley.Pos(n)))default:panic(\"invalidnodetypeforSetReaderPos(),youneedtoimplementtheast.ReaderPosSetterinterface\")}returnnode}" ∧
+    FactsAst.nodeListAppendBody = "{switchv:=node.(type){caseNodeList:for_,node:=rangev{nl.Append(node)}caseEmptyNode:for_,node:=range*nl{ifnode==v{return}}*nl=append(*nl,v)default:*nl=append(*nl,v)}}" ∧
+    FactsAst.nodeListSetReaderPosBody = "{fori,node:=rangenl{nl[i]=SetReaderPos(node,f)}}" ∧
+    FactsAst.terminalSetReaderPosBody = "{t.readerPos=f(t.readerPos)}" ∧
+    FactsAst.nonTerminalSetReaderPosBody = "{n.readerPos=f(n.readerPos)}" ∧
+    FactsAst.memoizeBody = "{parserIndex:=int(atomic.AddInt32(&nextParserIndex,1))returnparser.Func(func(ctx*parsley.Context,leftRecCtxdata.IntMap,posparsley.Pos)(parsley.Node,data.IntSet,parsley.Error){ifresult,found:=ctx.ResultCache().Get(parserIndex,pos,leftRecCtx);found{returnresult.Node,result.CurtailingParsers,result.Error}ifleftRecCtx.Get(parserIndex)>ctx.Reader().Remaining(pos)+1{returnnil,data.NewIntSet(parserIndex),nil}node,cp,err:=p.Parse(ctx,leftRecCtx.Inc(parserIndex),pos)ifnl,ok:=node.(ast.NodeList);ok{node=nl[:len(nl):len(nl)]}leftRecCtx=leftRecCtx.Filter(cp)res:=&parsley.Result{LeftRecCtx:leftRecCtx,CurtailingParsers:cp,Error:err,Node:node,}ctx.ResultCache().Save(parserIndex,pos,res)returnnode,cp,err})}" ∧
+    FactsAst.seqResultHandlerBody = "{returnfunc(posparsley.Pos,tokenstring,nodes[]parsley.Node,interpreterparsley.Interpreter)parsley.Node{l:=len(nodes)switchl{case0:returnast.NewEmptyNonTerminalNode(token,pos,interpreter)case1:ifreturnSingle{returnnodes[0]}}nodesCopy:=make([]parsley.Node,l)copy(nodesCopy,nodes)returnast.NewNonTerminalNode(token,nodesCopy,interpreter)}}" ∧
+    FactsAst.seqParseNextBody = "{iflen(s.nodes)<depth+1{s.nodes=append(s.nodes,node)}else{s.nodes[depth]=node}ifnode.ReaderPos()>pos{leftRecCtx=data.EmptyIntMapmergeCurtailingParsers=false}ifs.parse(depth+1,ctx,leftRecCtx,node.ReaderPos(),mergeCurtailingParsers){returntrue}returnfalse}" ∧
+    FactsAst.anyBody = "{ifparsers==nil{panic(\"noparsersweregiven\")}returnparser.Func(func(ctx*parsley.Context,leftRecCtxdata.IntMap,posparsley.Pos)(parsley.Node,data.IntSet,parsley.Error){cp:=data.EmptyIntSetvarresparsley.Nodevarerr,notFoundErrparsley.Errorfor_,p:=rangeparsers{ctx.RegisterCall()res2,cp2,err2:=p.Parse(ctx,leftRecCtx,pos)cp=cp.Union(cp2)res=ast.AppendNode(res,res2)iferr2!=nil&&(err==nil||err2.Pos()>=err.Pos()){iferr2.Pos()>pos||!parsley.IsNotFoundError(err2){err=err2}else{notFoundErr=err2}}}ifres==nil{iferr==nil{err=notFoundErr}returnnil,cp,err}ctx.SetError(err)returnres,cp,nil})}" ∧
+    FactsAst.optionalBody = "{returnparser.Func(func(ctx*parsley.Context,leftRecCtxdata.IntMap,posparsley.Pos)(parsley.Node,data.IntSet,parsley.Error){res,cp,err:=p.Parse(ctx,leftRecCtx,pos)returnast.AppendNode(res,ast.EmptyNode(pos)),cp,err})}" :=
+  ⟨rfl, rfl, rfl, rfl, rfl, rfl, rfl, rfl, rfl, rfl, rfl⟩
 
 end PV.Slice
